@@ -364,15 +364,24 @@ def run_tree_tie(ck, sq_cases, tag):
         for k in range(0, len(rows), 40):
             parts.append("let %s%d = [\n " % (name, k // 40) + ";\n ".join(rows[k:k + 40]) + "]\n")
         return "".join(parts) + "let %s = List.concat [%s]\n" % (name, "; ".join("%s%d" % (name, i) for i in range(len(parts))))
-    txt = chunks("lcases", lc) + chunks("mcases", mc)
+    # (hostile request, baseline request) pairs whose ASTs are both at hand: script_variantb is evaluated on them
+    have = set(c["id"] for c in usable)
+    vpairs = [(c["id"], reqs[c["id"]]["_base_req"]) for c in usable
+              if not reqs[c["id"]].get("is_base") and reqs[c["id"]].get("_base_req") in have
+              # label NAMES inside queries are identifiers, not values (identifier_sites_safe): not a variant of the marker's request
+              and ".ident." not in reqs[c["id"]]["site"]]
+    txt = chunks("lcases", lc) + chunks("mcases", mc) + "let pairs = [%s]\n" % "; ".join("(%d, %d)" % p for p in vpairs)
     rc, out = ck.ocaml_eval("c10tree_" + tag, "ExtractC10.v", "c10pieces", txt, "c10_driver.ml")
     if rc != 0:
         ck.obligation("tree-level cases evaluated by the extracted planner + segmented renderer", False, out[-2000:])
         return
     res = {}
+    variant = {}
     for ln in out.splitlines():
         parts = ln.split(" ")
-        if parts and parts[0].lstrip("-").isdigit():
+        if parts and parts[0] == "V":
+            variant[int(parts[1])] = parts[3] == "1"
+        elif parts and parts[0].lstrip("-").isdigit():
             res[int(parts[0])] = parts[1:]
     mism, notok, leaked, nstmt, located, npieces, nvals, unmodelled = [], [], [], 0, 0, 0, 0, 0
     by_site = {}
@@ -442,6 +451,10 @@ def run_tree_tie(ck, sq_cases, tag):
                             break
     ck.obligation("LogQL (%s): the segmented text planned for the hostile request is the marker's text with the marker replaced inside the value pieces (instance of request_values_keep_statement_structure), on %d (request, baseline) pairs"
                   % (tag, ncmp), not notsubst, "; ".join(c["query"][:140] for c in notsubst[:3]))
+    # the hypothesis of logql_requests_differing_only_in_values_have_the_same_structure, on the ASTs of the real parser
+    notvar = [c for c in usable if variant.get(c["id"]) is False]
+    ck.obligation("LogQL (%s): the request the real parser read for the hostile string is a VARIANT of the request for the marker (script_variantb, sound by logql_variant_check_is_sound): theorem logql_requests_differing_only_in_values_have_the_same_structure applies to %d (request, baseline) pairs"
+                  % (tag, len(variant)), not notvar and (len(variant) > 0 or not vpairs), "; ".join(c["query"][:140] for c in notvar[:3]))
     n = len([c for c in usable if not reqs[c["id"]].get("is_base")]) - unmodelled
     ck.obligation("tree-level correspondence (%s): flat(pieces(plan ast)) = SQL of the real LogQL planner, byte for byte, on %d requests / %d statements" % (tag, n, nstmt),
                   not mism, "; ".join("%s => %s" % (c["query"][:120], why) for c, why in mism[:3]))
@@ -463,7 +476,7 @@ def run_tree_tie(ck, sq_cases, tag):
     t[tag] = {"logql_requests": nall, "logql_requests_planned_(sample_beyond_8000)": ncase, "planned_by_model_and_code": n, "statements": nstmt, "pieces": npieces, "value_pieces": nvals,
               "requests_whose_value_is_located_in_a_value_piece": located, "skipped": skipped,
               "stage_not_transcribed_in_LogqlPlan_v": unmodelled,
-              "pairs_compared_piecewise_with_the_markers_text": ncmp,
+              "pairs_compared_piecewise_with_the_markers_text": ncmp, "pairs_whose_parsed_requests_are_variants_(script_variantb)": sum(1 for v in variant.values() if v), "pairs_not_variants": len(notvar),
               "per_site_[requests,value_located_in_a_value_piece,compared_with_marker]": by_site}
     ck.coverage["evaluations"] += nstmt
 
